@@ -53,6 +53,7 @@ class Term:
         "Element": ("value", "comma"), "DictElement": ("key", "value"), "List": ("elements",), "Tuple": ("elements",), "Set": ("elements",),
         "Dict": ("elements",), "Comparison": ("left", "comparisons"), "ComparisonTarget": ("operator", "comparator"),
         "Assert": ("test",), "SimpleStatementLine": ("body",), "parse_expression": ("source",), "Comma": (), "Minus": (), "Plus": (),
+        "ArtificialInstr": ("name", "arg"), "Instr": ("name", "arg"),
     }
 
     def __init__(self, name, args, kwargs):
@@ -167,7 +168,7 @@ TYPES = {
     "int": int, "float": float, "str": str, "bytes": bytes, "bytearray": bytearray, "bool": bool, "complex": complex,
     "list": list, "tuple": tuple, "set": set, "frozenset": frozenset, "dict": dict, "type": type, "object": object,
     "numbers.Number": numbers.Number, "Number": numbers.Number, "numbers.Real": numbers.Real, "numbers.Integral": numbers.Integral,
-    "Sized": collections.abc.Sized, "Iterable": collections.abc.Iterable, "Sequence": collections.abc.Sequence, "Mapping": collections.abc.Mapping,
+    "Sized": collections.abc.Sized, "Iterable": collections.abc.Iterable, "Iterator": collections.abc.Iterator, "Sequence": collections.abc.Sequence, "Mapping": collections.abc.Mapping,
     "Collection": collections.abc.Collection, "Hashable": collections.abc.Hashable,
     "BaseException": BaseException, "Exception": Exception, "NoneType": type(None), "enum.Enum": enum.Enum, "Enum": enum.Enum,
 }
@@ -179,7 +180,7 @@ PURE = {
     "math.floor": math.floor, "math.ceil": math.ceil, "math.isinf": math.isinf, "math.isnan": math.isnan, "math.isfinite": math.isfinite,
     "math.trunc": math.trunc, "math.copysign": math.copysign, "math.sqrt": math.sqrt, "math.fabs": math.fabs, "math.isclose": math.isclose,
     "math.log": math.log, "math.exp": math.exp, "isclass": lambda x: isinstance(x, type), "inspect.isclass": lambda x: isinstance(x, type),
-    "issubclass": issubclass, "dir": dir, "map": map, "filter": filter, "reversed": reversed, "iter": iter, "next": next, "dict": dict, "frozenset": frozenset, "getattr": getattr, "hasattr": hasattr,
+    "issubclass": issubclass, "dir": dir, "map": map, "filter": filter, "reversed": reversed, "iter": iter, "next": next, "dict": dict, "frozenset": frozenset, "getattr": getattr, "hasattr": hasattr, "id": id,
 }
 import builtins as _builtins  # noqa: E402
 
@@ -214,7 +215,9 @@ def _binop(op, a, b):
 def _guard(f, *a, **k):
     try:
         return f(*a, **k)
-    except _PYEXC as exc:
+    except (Undecided, Raises, _Return, _Break, _Continue):
+        raise
+    except Exception as exc:  # noqa: BLE001 - whatever a builtin or a representative object of the checker raises is an exception of the interpreted program
         raise Raises(type(exc).__name__, str(exc)) from None
 
 
@@ -222,7 +225,8 @@ class Interp:
     """resolver(dotted name, module) -> (FunctionDef, Module) | None resolves calls into the analysed package.
     identity: names of calls treated as identity on their first argument; sinks: names of calls recorded, not evaluated."""
 
-    def __init__(self, resolver=None, identity=(), sinks=(), max_steps: int = 200000, on_store=None, ctor_prefixes=(), externs=None, class_resolver=None, consts=None):
+    def __init__(self, resolver=None, identity=(), sinks=(), max_steps: int = 200000, on_store=None, ctor_prefixes=(), externs=None, class_resolver=None, consts=None, native_types=()):
+        self.native_types = tuple(native_types)  # representative objects of the checker whose attributes / methods are used natively
         self.class_resolver = class_resolver
         self.consts = dict(consts or {})
         self.ctor_prefixes = tuple(ctor_prefixes)
@@ -290,6 +294,8 @@ class Interp:
                 raise Raises("AttributeError", f"{base!r}.{e.attr}")
             if isinstance(base, enum.Enum) and e.attr in ("name", "value"):
                 return getattr(base, e.attr)
+            if self.native_types and isinstance(base, self.native_types):
+                return _guard(getattr, base, e.attr)
             if e.attr in ("real", "imag", "numerator", "denominator", "__name__", "__class__", "__mro__", "__bases__", "__qualname__", "__module__") and not isinstance(base, dict):
                 return _guard(getattr, base, e.attr)
             if isinstance(base, dict) and e.attr in base:
@@ -338,6 +344,9 @@ class Interp:
                         r = str(left) == str(right) and type(left) is type(right)
                     elif isinstance(op, (ast.NotEq, ast.IsNot)):
                         r = not (str(left) == str(right) and type(left) is type(right))
+                    elif isinstance(op, (ast.In, ast.NotIn)) and isinstance(right, (set, frozenset, tuple, list)):
+                        hit = any(type(x) is type(left) and (str(x) == str(left) if isinstance(left, Token) else x == left) for x in right)
+                        r = hit if isinstance(op, ast.In) else not hit
                     else:
                         raise Undecided("ordering of symbolic constants")
                 else:
@@ -396,6 +405,15 @@ class Interp:
             return dict(pairs)
         if isinstance(e, ast.Call):
             return self.call(e, env, mod)
+        if isinstance(e, ast.NamedExpr):
+            v = self.ev(e.value, env, mod)
+            self._bind(e.target, v, env)
+            return v
+        if isinstance(e, ast.Yield):
+            # generator functions are evaluated eagerly: the yielded values are collected in order
+            v = self.ev(e.value, env, mod) if e.value is not None else None
+            env.setdefault("__yielded__", []).append(v)
+            return None
         raise Undecided(f"expression `{norm(e)[:60]}`")
 
     def _comp(self, e, i, env, mod, out):
@@ -495,6 +513,15 @@ class Interp:
                 base = None
             if base is not None and not isinstance(base, (Token, Closure)):
                 return _guard(getattr(base, e.func.attr), *args, **kwargs)
+        if not isinstance(e.func, ast.Name):
+            try:
+                fv = self.ev(e.func, env, mod)
+            except Undecided:
+                fv = None
+            if isinstance(fv, Closure):
+                return fv.interp.apply(fv, args, kwargs, mod)
+            if callable(fv) and not isinstance(fv, type):
+                return fv(*args, **kwargs)
         raise Undecided(f"call `{name}`")
 
     def instantiate(self, name, mro, args, kwargs):
@@ -543,6 +570,8 @@ class Interp:
     def _super_call(self, e, env, mod, args, kwargs):
         """super().method(...) inside a method of an instantiated class."""
         obj = env.get("self")
+        if not isinstance(obj, Obj):
+            obj = env.get("cls")
         cur = getattr(self, "_fn_stack", [None])[-1]
         if not isinstance(obj, Obj) or not hasattr(obj, "mro") or cur is None:
             raise Undecided("super() outside an interpreted instance method")
@@ -589,11 +618,14 @@ class Interp:
                 env[k.arg] = kwargs[k.arg]
             elif d is not None:
                 env[k.arg] = self.ev(d, {}, mod)
+        is_gen = any(isinstance(n, (ast.Yield, ast.YieldFrom)) for n in _own_walk(fn))
+        if is_gen:
+            env["__yielded__"] = []
         try:
             self.block(fn.body, env, mod)
         except _Return as r:
-            return r.value
-        return None
+            return env["__yielded__"] if is_gen else r.value
+        return env["__yielded__"] if is_gen else None
 
     # ------------------------------------------------------------------ statements
     def _bind(self, target, value, env):
@@ -754,7 +786,47 @@ class Interp:
             return self._match(pat.pattern, subj, env, mod)
         if isinstance(pat, ast.MatchOr):
             return any(self._match(p, subj, env, mod) for p in pat.patterns)
+        if isinstance(pat, ast.MatchSequence):
+            if not isinstance(subj, (tuple, list)) or any(isinstance(p, ast.MatchStar) for p in pat.patterns):
+                if isinstance(subj, (tuple, list)):
+                    raise Undecided("starred sequence pattern")
+                return False
+            if len(subj) != len(pat.patterns):
+                return False
+            return all(self._match(p, v, env, mod) for p, v in zip(pat.patterns, subj))
+        if isinstance(pat, ast.MatchClass):
+            cls = self.ev(pat.cls, env, mod)
+            if isinstance(cls, type):
+                if not isinstance(subj, cls) or isinstance(subj, (Obj, Term)):
+                    return False
+                if pat.kwd_patterns or len(pat.patterns) > 1:
+                    raise Undecided("class pattern with sub-patterns on a builtin")
+                return not pat.patterns or self._match(pat.patterns[0], subj, env, mod)
+            if isinstance(cls, ClassRef):
+                if not isinstance(subj, Obj) or cls.name not in subj.classes:
+                    return False
+                names = [st.target.id for cdef, _m in reversed(cls.mro) for st in cdef.body if isinstance(st, ast.AnnAssign) and isinstance(st.target, ast.Name) and not norm(st.annotation).startswith("ClassVar")]
+                if len(pat.patterns) > len(names):
+                    raise Raises("TypeError", "too many positional sub-patterns")
+                for p, n in zip(pat.patterns, names):
+                    if n not in subj.fields or not self._match(p, subj.fields[n], env, mod):
+                        return False
+                for n, p in zip(pat.kwd_attrs, pat.kwd_patterns):
+                    if n not in subj.fields or not self._match(p, subj.fields[n], env, mod):
+                        return False
+                return True
+            raise Undecided(f"class pattern `{norm(pat.cls)}`")
         raise Undecided("match pattern")
+
+
+def _own_walk(fn):
+    stack = list(fn.body)
+    while stack:
+        n = stack.pop()
+        yield n
+        for c in ast.iter_child_nodes(n):
+            if not isinstance(c, (ast.FunctionDef, ast.AsyncFunctionDef, ast.Lambda, ast.ClassDef)):
+                stack.append(c)
 
 
 class _Break(Exception):
